@@ -141,7 +141,10 @@ func stacklessWriteBrotli(ctx any) {
 	stacklessWriteBrotliOnce.Do(func() {
 		stacklessWriteBrotliFunc = stackless.NewFunc(nonblockingWriteBrotli)
 	})
-	stacklessWriteBrotliFunc(ctx)
+	if !stacklessWriteBrotliFunc(ctx) {
+		// The stackless queue is full, so compress on the caller's stack.
+		nonblockingWriteBrotli(ctx)
+	}
 }
 
 func nonblockingWriteBrotli(ctxv any) {
